@@ -251,6 +251,14 @@ def check_unit(text: str, cuts: typing.List[int], procs: typing.List[list]) -> t
     want = reference(text, procs)
     got = run_impl(text, cuts, procs)
     kinds = "+".join(p[0] for p in procs) or "none"
+    if text == "" and not cuts:
+        # a template that yields no chunk at all (not even an empty one) writes an empty file
+        from nunavut.jinja import CodeGenerator
+
+        out0 = io.StringIO()
+        CodeGenerator._generate_with_line_buffer(out0, iter(()), make_procs(procs))  # pylint: disable=protected-access
+        if out0.getvalue() != want:
+            return {"signature": "%s:unit:%s:no-chunk-at-all" % (PROP, kinds), "detail": {"text": text, "cuts": cuts, "procs": procs, "got": out0.getvalue(), "want": want}}
     if got != want:
         whole = run_impl(text, [], procs)
         if whole == want:
